@@ -19,6 +19,19 @@ theorem C05_transparent (F : Nat → LId → Option VId → Bool) (w : World) (v
     (M.neighbors w F v dir unk filt none).2 = M.neighborsPure w F v dir unk filt :=
   neighbors_answer w F v dir unk filt h
 
+/-- arguments that cannot serve as a memo key (an unhashable filter callable): the query is
+    answered by recomputation whether the flag is on or off — it does not raise — and the world,
+    memos included, is left exactly as it was -/
+theorem C05_unhashable_never_cached (F : Nat → LId → Option VId → Bool) (w : World) (v : VId)
+    (dir unk : Nat) (filt fault : Option Nat) (h : M.unhashable filt = true) :
+    (M.neighbors w F v dir unk filt fault).1 = w ∧
+    (M.neighbors w F v dir unk filt none).2 = M.neighborsPure w F v dir unk filt := by
+  constructor
+  · simp only [M.neighbors, h, Bool.not_true, Bool.and_false, Bool.false_eq_true, if_false]
+    cases M.nbLoop w F v dir unk filt fault (w.links v) [] 0 <;> rfl
+  · simp only [M.neighbors, M.neighborsPure, h, Bool.not_true, Bool.and_false, Bool.false_eq_true, if_false]
+    cases M.nbLoop w F v dir unk filt none (w.links v) [] 0 <;> rfl
+
 /-- a query (even one whose filter raises at its `k`-th invocation) touches nothing but the
     memo of the queried vertex, and keeps every memo correct -/
 theorem C05_query_preserves (F : Nat → LId → Option VId → Bool) (w : World) (v : VId) (dir unk : Nat)
